@@ -76,6 +76,8 @@ def _effects(v: PathView) -> frozenset:
                 out.add("use_vms_default[vm]=" + ast.unparse(s.value))
             elif t.startswith("with_selected_vms"):
                 out.add("with_selected_vms[:]=")
+            elif t == "nets_str":
+                out.add("nets_str=")
             else:
                 out.add(f"{t}=" + (ast.unparse(s.value) if isinstance(s.value, ast.Constant) else ""))
     return frozenset(out)
@@ -211,8 +213,12 @@ def defaults(ctx: Ctx, rule: str) -> None:
         use = ("atom", f"use_vms_default[{vm}]")
         if adds:
             n2 += 1
-            if not norm.implies(norm.conj([v.cond_formula(i) for i, s in enumerate(v.steps) if s.kind == "cond"]), use) or \
-               ast.unparse(adds[0].value) != "'only %s\\n' % default if default else ''":
+            conds_ = norm.conj([v.cond_formula(i) for i, s in enumerate(v.steps) if s.kind == "cond"])
+            # `+= 'only <default>\n' if default else ''` (the conditional is a branch of the path)
+            val = ast.unparse(adds[0].value)
+            has_default = norm.implies(conds_, v.formula_of(ast.parse("default", mode="eval").body, len(v.steps)))
+            good_val = (val == "'only %s\\n' % default" and has_default) or (val == "''" and not has_default)
+            if not norm.implies(conds_, use) or not good_val:
                 bad = v
     ctx.record(rule + "v", "GUARD", fref2, "per vm: its default restriction is appended only if no restriction for that vm was given", bad is None and n2 >= 1, {},
                "" if bad is None and n2 >= 1 else "vm defaults are appended although the command line restricts that vm")
